@@ -2,7 +2,7 @@
     operations whose chunks do not glue ([ProofsGlue.G]) gives the concatenation of the chunks'
     own token lists, whatever the indentation. *)
 From V Require Import Base.Util Gql.Ast Writer.Wop C16.Model C16.Spec C16.SpecLex
-  C16.ProofsString C16.ProofsGlue C16.ProofsLex1.
+  C16.ProofsString C16.ProofsGlue C16.ProofsLex1 C16.ProofsBlock.
 Local Open Scope N_scope.
 
 (** chunks made of ignored characters, punctuators and word characters only *)
@@ -164,7 +164,7 @@ Qed.
 Lemma L_literal : forall v ind flag k tk,
   is_multiline v = false -> plain_line v = true ->
   L k tk -> starts_quote k = false ->
-  L (ins ind flag (print_string v) ++ k) (TS v :: tk) /\ insf flag (print_string v) = false.
+  L (ins ind flag (print_string v) ++ k) (TR (TNormal v) :: tk) /\ insf flag (print_string v) = false.
 Proof.
   intros v ind flag k tk Hm Hp Hk Hq.
   assert (Hne : print_string v <> []) by (unfold print_string; rewrite Hm; discriminate).
@@ -182,21 +182,32 @@ Proof.
   lia.
 Qed.
 
-(** ** token lists of chunks and of operation lists *)
-Inductive CK : str -> list tok -> Prop :=
-| CK_simple c tc : simple c = true -> L c tc -> CK c tc
-| CK_lit v : is_multiline v = false -> plain_line v = true -> CK (print_string v) [TS v].
-
-Inductive TK : list wop -> list tok -> Prop :=
-| TK_nil : TK [] []
-| TK_I r ts : TK r ts -> TK (Indent :: r) ts
-| TK_D r ts : TK r ts -> TK (Dedent :: r) ts
-| TK_W c r tc ts : CK c tc -> TK r ts -> TK (W c :: r) (tc ++ ts)
-| TK_WF c p n r tc ts : CK c tc -> TK r ts -> TK (WF c p n :: r) (tc ++ ts).
-
-Lemma TK_app : forall a ta b0 tb, TK a ta -> TK b0 tb -> TK (a ++ b0) (ta ++ tb).
+(** ** a multi-line string literal, as JustWriter writes it at any indentation *)
+Lemma L_block_literal : forall v ind flag k tk,
+  is_multiline v = true -> plain_block v = true ->
+  L k tk -> starts_quote k = false ->
+  L (ins ind flag (print_string v) ++ k) (TR (TBlock (rawb ind v)) :: tk) /\ insf flag (print_string v) = false.
 Proof.
-  intros a ta b0 tb Ha Hb. induction Ha; cbn [app]; try rewrite <- app_assoc; try constructor; assumption.
+  intros v ind flag k tk Hm Hp Hk Hq.
+  assert (Hps : print_string v = QQQ ++ v ++ QQQ).
+  { unfold print_string. rewrite Hm. unfold plain_block in Hp.
+    apply andb_true_iff in Hp as [Hp _]. apply andb_true_iff in Hp as [Hn _].
+    rewrite (block_body_id v 0) by (try lia; exact Hn). reflexivity. }
+  rewrite Hps. destruct (ins_literal ind flag v) as [E1 E2]. split; [|exact E2].
+  rewrite E1, <- app_assoc. apply L_pre. rewrite <- !app_assoc.
+  pose proof (lex_string_written_block v ind k Hp) as Hl.
+  assert (Hlen : (length k <= length ([DQ; DQ] ++ rawb ind v ++ QQQ ++ k))%nat).
+  { rewrite !app_length. lia. }
+  exact (L_string ([DQ; DQ] ++ rawb ind v ++ QQQ ++ k) (TBlock (rawb ind v)) k tk Hl Hlen Hk).
+Qed.
+
+Lemma lastc_print_string v : lastc (print_string v) = Some 34.
+Proof.
+  unfold print_string. destruct (is_multiline v).
+  - change ([DQ; DQ; DQ] ++ block_body 0 v ++ [DQ; DQ; DQ]) with ([DQ; DQ; DQ] ++ block_body 0 v ++ [DQ; DQ] ++ [DQ]).
+    rewrite !app_assoc. rewrite lastc_app by discriminate. reflexivity.
+  - change (DQ :: flat_map esc_char v ++ [DQ]) with ((DQ :: flat_map esc_char v) ++ [DQ]).
+    rewrite lastc_app by discriminate. reflexivity.
 Qed.
 
 (** the first character JustWriter writes for the rest is a space of the indentation, or the first
@@ -226,54 +237,89 @@ Qed.
 Lemma wordy_wordc c : wordy c = wordc c.
 Proof. reflexivity. Qed.
 
-Theorem TK_lex : forall ops ts, TK ops ts -> G ops = true -> forall ind flag, L (jrun ops ind flag) ts.
+(** ** token lists of chunks and of operation lists, under a reading of string tokens.
+    [val]: the reading of a string token; [sn]: what a string value of the document stands for;
+    [blk]: the multi-line values covered.  Two instances are used (Properties.v): nitrogql's raw
+    reading ([value_nitrogql], identity, no multi-line value) and the specification's
+    ([value_spec], [snorm], [block_lit]). *)
+Section Reading.
+Variable val : strtok -> str.
+Variable sn : str -> str.
+Variable blk : str -> bool.
+Hypothesis val_line : forall v, is_multiline v = false -> val (TNormal v) = sn v.
+Hypothesis val_blk : forall v, blk v = true ->
+  is_multiline v = true /\ plain_block v = true /\ forall ind, val (TBlock (rawb ind v)) = sn v.
+
+Inductive CK : str -> list tok -> Prop :=
+| CK_simple c tc tc' : simple c = true -> L c tc -> map (read val) tc = tc' -> CK c tc'
+| CK_lit v : is_multiline v = false -> plain_line v = true -> CK (print_string v) [TS (sn v)]
+| CK_blk v : blk v = true -> CK (print_string v) [TS (sn v)].
+
+Inductive TK : list wop -> list tok -> Prop :=
+| TK_nil : TK [] []
+| TK_I r ts : TK r ts -> TK (Indent :: r) ts
+| TK_D r ts : TK r ts -> TK (Dedent :: r) ts
+| TK_W c r tc ts : CK c tc -> TK r ts -> TK (W c :: r) (tc ++ ts)
+| TK_WF c p n r tc ts : CK c tc -> TK r ts -> TK (WF c p n :: r) (tc ++ ts).
+
+Lemma TK_app : forall a ta b0 tb, TK a ta -> TK b0 tb -> TK (a ++ b0) (ta ++ tb).
 Proof.
-  intros ops ts H. induction H as [|r ts H IH|r ts H IH|c r tc ts Hc H IH|c p n r tc ts Hc H IH]; intros HG ind flag.
-  - apply L_nil.
-  - cbn [jrun]. apply IH. exact HG.
-  - cbn [jrun]. apply IH. exact HG.
-  - cbn [G chunk_of] in HG. apply andb_true_iff in HG as [Hg HGr]. apply negb_true_iff in Hg.
-    cbn [jrun]. specialize (IH HGr ind (insf flag c)).
-    pose proof (hd_jrun r ind (insf flag c)) as Hh.
-    destruct Hc as [c tc Hs [f [_ Hl]]|v Hm Hp].
-    + apply (L_simple_ins f c tc Hl Hs ind flag _ ts IH).
-      intro Hlw. unfold last_wordc in Hlw. destruct (lastc c) as [a|]; [|discriminate Hlw].
-      destruct (jrun r ind (insf flag c)) as [|h t]; [reflexivity|]. cbn [hd_wordc].
-      destruct Hh as [->|Hf]; [reflexivity|].
-      rewrite Hf in Hg. cbn [glue_o] in Hg. unfold glue in Hg. apply orb_false_iff in Hg as [Hg _].
-      rewrite wordy_wordc, Hlw in Hg. cbn [andb] in Hg. exact Hg.
-    + assert (Hq : starts_quote (jrun r ind (insf flag (print_string v))) = false).
-      { assert (Hlast : lastc (print_string v) = Some 34).
-        { unfold print_string. rewrite Hm. change (DQ :: flat_map esc_char v ++ [DQ]) with ((DQ :: flat_map esc_char v) ++ [DQ]).
-          rewrite lastc_app by discriminate. reflexivity. }
-        rewrite Hlast in Hg.
-        destruct (jrun r ind (insf flag (print_string v))) as [|h t]; [reflexivity|]. cbn [starts_quote].
-        destruct Hh as [->|Hf]; [reflexivity|].
-        rewrite Hf in Hg. cbn [glue_o] in Hg. unfold glue in Hg. apply orb_false_iff in Hg as [_ Hg].
-        change (34 =? DQ) with true in Hg. cbn [andb] in Hg. exact Hg. }
-      destruct (L_literal v ind flag _ ts Hm Hp IH Hq) as [HL _]. exact HL.
-  - cbn [G chunk_of] in HG. apply andb_true_iff in HG as [Hg HGr]. apply negb_true_iff in Hg.
-    cbn [jrun]. specialize (IH HGr ind (insf flag c)).
-    pose proof (hd_jrun r ind (insf flag c)) as Hh.
-    destruct Hc as [c tc Hs [f [_ Hl]]|v Hm Hp].
-    + apply (L_simple_ins f c tc Hl Hs ind flag _ ts IH).
-      intro Hlw. unfold last_wordc in Hlw. destruct (lastc c) as [a|]; [|discriminate Hlw].
-      destruct (jrun r ind (insf flag c)) as [|h t]; [reflexivity|]. cbn [hd_wordc].
-      destruct Hh as [->|Hf]; [reflexivity|].
-      rewrite Hf in Hg. cbn [glue_o] in Hg. unfold glue in Hg. apply orb_false_iff in Hg as [Hg _].
-      rewrite wordy_wordc, Hlw in Hg. cbn [andb] in Hg. exact Hg.
-    + assert (Hq : starts_quote (jrun r ind (insf flag (print_string v))) = false).
-      { assert (Hlast : lastc (print_string v) = Some 34).
-        { unfold print_string. rewrite Hm. change (DQ :: flat_map esc_char v ++ [DQ]) with ((DQ :: flat_map esc_char v) ++ [DQ]).
-          rewrite lastc_app by discriminate. reflexivity. }
-        rewrite Hlast in Hg.
-        destruct (jrun r ind (insf flag (print_string v))) as [|h t]; [reflexivity|]. cbn [starts_quote].
-        destruct Hh as [->|Hf]; [reflexivity|].
-        rewrite Hf in Hg. cbn [glue_o] in Hg. unfold glue in Hg. apply orb_false_iff in Hg as [_ Hg].
-        change (34 =? DQ) with true in Hg. cbn [andb] in Hg. exact Hg. }
-      destruct (L_literal v ind flag _ ts Hm Hp IH Hq) as [HL _]. exact HL.
+  intros a ta b0 tb Ha Hb. induction Ha; cbn [app]; try rewrite <- app_assoc; try constructor; assumption.
 Qed.
 
-(** for the text [just_run] writes *)
-Corollary TK_lex_just_run ops ts : TK ops ts -> G ops = true -> L (just_run ops) ts.
-Proof. intros H HG. rewrite just_run_jrun. apply TK_lex; assumption. Qed.
+(** one chunk in front of text that lexes *)
+Lemma chunk_lex : forall c tc, CK c tc ->
+  forall r ind flag rts ts,
+  L (jrun r ind (insf flag c)) rts -> map (read val) rts = ts ->
+  glue_o (lastc c) (first_char r) = false ->
+  exists rts', L (ins ind flag c ++ jrun r ind (insf flag c)) rts' /\ map (read val) rts' = tc ++ ts.
+Proof.
+  intros c tc Hc r ind flag rts ts HL Hm Hg.
+  pose proof (hd_jrun r ind (insf flag c)) as Hh.
+  assert (Hquote : lastc c = Some 34 -> starts_quote (jrun r ind (insf flag c)) = false).
+  { intro Hlast. rewrite Hlast in Hg.
+    destruct (jrun r ind (insf flag c)) as [|h t]; [reflexivity|]. cbn [starts_quote].
+    destruct Hh as [->|Hf]; [reflexivity|].
+    rewrite Hf in Hg. cbn [glue_o] in Hg. unfold glue in Hg. apply orb_false_iff in Hg as [_ Hg].
+    change (34 =? DQ) with true in Hg. cbn [andb] in Hg. exact Hg. }
+  destruct Hc as [c tc tc' Hs [f [_ Hl]] Hmap|v Hml Hp|v Hb].
+  - exists (tc ++ rts). split.
+    + apply (L_simple_ins f c tc Hl Hs ind flag _ rts HL).
+      intro Hlw. unfold last_wordc in Hlw. destruct (lastc c) as [a|]; [|discriminate Hlw].
+      destruct (jrun r ind (insf flag c)) as [|h t]; [reflexivity|]. cbn [hd_wordc].
+      destruct Hh as [->|Hf]; [reflexivity|].
+      rewrite Hf in Hg. cbn [glue_o] in Hg. unfold glue in Hg. apply orb_false_iff in Hg as [Hg _].
+      rewrite wordy_wordc, Hlw in Hg. cbn [andb] in Hg. exact Hg.
+    + rewrite map_app, Hmap, Hm. reflexivity.
+  - exists (TR (TNormal v) :: rts). split.
+    + destruct (L_literal v ind flag _ rts Hml Hp HL (Hquote (lastc_print_string v))) as [H _]. exact H.
+    + cbn [map read app]. rewrite (val_line v Hml), Hm. reflexivity.
+  - destruct (val_blk v Hb) as [Hml [Hp Hv]].
+    exists (TR (TBlock (rawb ind v)) :: rts). split.
+    + destruct (L_block_literal v ind flag _ rts Hml Hp HL (Hquote (lastc_print_string v))) as [H _]. exact H.
+    + cbn [map read app]. rewrite (Hv ind), Hm. reflexivity.
+Qed.
+
+Theorem TK_lex : forall ops ts, TK ops ts -> G ops = true ->
+  forall ind flag, exists rts, L (jrun ops ind flag) rts /\ map (read val) rts = ts.
+Proof.
+  intros ops ts H. induction H as [|r ts H IH|r ts H IH|c r tc ts Hc H IH|c p n r tc ts Hc H IH]; intros HG ind flag.
+  - exists []. split; [apply L_nil|reflexivity].
+  - cbn [jrun]. apply IH. exact HG.
+  - cbn [jrun]. apply IH. exact HG.
+  - cbn [G chunk_of] in HG. apply andb_true_iff in HG as [Hg HGr]. apply negb_true_iff in Hg.
+    cbn [jrun]. destruct (IH HGr ind (insf flag c)) as [rts [HL Hm]].
+    exact (chunk_lex c tc Hc r ind flag rts ts HL Hm Hg).
+  - cbn [G chunk_of] in HG. apply andb_true_iff in HG as [Hg HGr]. apply negb_true_iff in Hg.
+    cbn [jrun]. destruct (IH HGr ind (insf flag c)) as [rts [HL Hm]].
+    exact (chunk_lex c tc Hc r ind flag rts ts HL Hm Hg).
+Qed.
+
+(** for the text [just_run] writes, with the executable lexer *)
+Corollary TK_lex_just_run ops ts : TK ops ts -> G ops = true -> lex_with val (just_run ops) = Some ts.
+Proof.
+  intros H HG. rewrite just_run_jrun. destruct (TK_lex ops ts H HG 0 false) as [rts [HL Hm]].
+  rewrite (L_lex_with val _ rts HL), Hm. reflexivity.
+Qed.
+
+End Reading.
